@@ -15,7 +15,7 @@ import copy, json, os
 VOCAB = os.path.join(os.path.dirname(os.path.abspath(__file__)), 'baseline_fns.json')
 # one-line helpers of the reviewed tree that the rules look through: whether a maintainer keeps them as functions or
 # writes their bodies in place is the same program to every rule
-TRANSPARENT_HELPERS = {'gm_sm4::el', 'gm_sm4::el_prime', 'gm_zuc::make_u32'}
+TRANSPARENT_HELPERS = {'gm_sm4::el', 'gm_sm4::el_prime', 'gm_zuc::make_u32', 'gm_sm9::fields::getu64'}
 MAX_BLOCKS = 4000
 
 
@@ -144,13 +144,13 @@ def splice(caller, b, callee):
     return True
 
 
-def inline_new_helpers(F, vocab=None, rounds=6):
+def inline_new_helpers(F, vocab=None, rounds=6, keep=()):
     """returns {caller name: [inlined callee names]}"""
     vocab = load_vocab() if vocab is None else vocab
     done = {}
     if not vocab:
         return done
-    new = {n for n in F.fns if (n not in vocab and '{closure' not in n) or n in TRANSPARENT_HELPERS}
+    new = {n for n in F.fns if (n not in vocab and '{closure' not in n) or (n in TRANSPARENT_HELPERS and n not in keep)}
     if not new:
         return done
     originals = {n: copy.deepcopy(F.fns[n]) for n in new}     # inline the helper as written, not a partially inlined copy
